@@ -8,6 +8,8 @@ a plan {k: j}, raises `simplifier.TimeoutException`
              tracing: `f_trace` is set on exactly that frame; callees are not traced), i.e.
              just before the (j+1)-th line of the body starts executing (events of bare `try:` lines and
              immediately repeated events of one line are not counted, see `_local`);
+  * dynamic (plan_fn returns {"after_lines": [...]}): at the first counted line event after one of the given source
+             lines has executed in the block (at most `after_budget` times per process);
   * j == -1: after the body has completed, from `__exit__` (the real SIGALRM handler can fire
              inside the generator's `finally`, before `signal.alarm(0)` has run).
 
@@ -88,6 +90,7 @@ class Injector:
         self.trace_all = trace_all
         self.snap = snap or (lambda frame, info: None)
         self.k = 0
+        self.after_budget = 0     # how many dynamic ("after a source line") interrupts may still fire
         self.blocks = []          # one record per entered block
         self.scan, self.scan_bad = scan_blocks(simplifier.__file__)
         self.try_lines = set(self.scan.pop("try_lines"))
@@ -121,9 +124,14 @@ class _Block:
         self.hl = info.get("handler_lines", (None, None))
         inj.blocks.append(self.rec)
         self.j = inj.plan.get(self.k)
+        self.after = None
         if self.j is None and inj.plan_fn is not None:
             self.j = inj.plan_fn(self.k, frame.f_code.co_name, frame.f_lineno)
-        self.traced = self.j is not None or inj.trace_all
+            if isinstance(self.j, dict):
+                # dynamic position: interrupt at the first counted line event after one of these source lines has executed
+                self.after = set(self.j["after_lines"])
+                self.j = None
+        self.traced = self.j is not None or self.after is not None or inj.trace_all
         if self.traced:
             self.rec["j"] = self.j
             self.rec["lines"] = []
@@ -146,6 +154,10 @@ class _Block:
             if ln == self.last or ln in self.inj.try_lines:
                 return self._local
             self.last = ln
+            if (self.after is not None and self.inj.after_budget > 0 and self.rec["lines"]
+                    and self.rec["lines"][-1] in self.after):
+                self.inj.after_budget -= 1
+                self.j = self.rec["j"] = self.n
             if self.j is not None and self.j >= 0 and self.n == self.j:
                 self._fire(frame, ln)
                 raise self.inj.S.TimeoutException("injected at block %d line-event %d (source line %d)" % (self.k, self.j, ln))
